@@ -302,6 +302,9 @@ func (s *ServerDnsListener) setOptionsRequest(v *commands.SetOptionsRequest, m *
 	user, err := s.validateAndGetUser(v.UserId, remoteAddr)
 	if err != nil {
 		resp.Err = err
+	} else if v.DownstreamFragmentSize != nil && (*v.DownstreamFragmentSize == 0 || *v.DownstreamFragmentSize > MaxDownstreamFragmentSize) {
+		// A zero fragment size would make every later Write spin forever
+		resp.Err = commands.BadFrag
 	} else if v.Closed != nil && *v.Closed == true {
 		log.Debugf("Client-initiated closing of the connection.")
 		_ = s.closeConnection(user)
@@ -345,6 +348,8 @@ func (s *ServerDnsListener) testDownstreamFragmentSize(v *commands.TestDownstrea
 	u, err := s.validateAndGetUser(v.UserId, remoteAddr)
 	if err != nil {
 		resp.Err = err
+	} else if v.FragmentSize > MaxDownstreamFragmentSize {
+		resp.Err = commands.BadFrag
 	} else {
 		resp.Data = make([]byte, v.FragmentSize)
 		v := byte(107)
